@@ -94,6 +94,49 @@ theorem fillSerial_spec : ∀ (rs : List Round) (b b' : NB) (n : Nat), OK b → 
     · rw [i4, k3]; simp
     · rw [i5, k4]; simp only [List.length_cons]; ring
 
+/-- what a round hands to the network level comes from the outer union, whose hand-out log only grows -/
+theorem innerRound_out (b b' : NB) (r : Round) (hs : innerRound b r = some b') (h : OK b) :
+    ∃ props, b'.outer.out = b.outer.out ++ props ∧ ∀ p ∈ r.accepted, p ∈ props := by
+  unfold innerRound at hs
+  split at hs
+  · exact absurd hs (by simp)
+  rename_i o' props hu
+  split at hs
+  · rename_i hsub
+    simp only [Option.some.injEq] at hs
+    subst hs
+    obtain ⟨_, _, u3, _⟩ := unionSample_spec _ _ _ _ _ h.2.1 hu
+    exact ⟨props, u3, fun p hp => (List.isSublist_iff_sublist.mp hsub).subset hp⟩
+  · exact absurd hs (by simp)
+
+/-- soundness of the cache: every point the serial loop adds to the cache was handed out by the outer union (and, by the oracle
+    `accepted`, passed the networks) — the cache never holds a point that did not come through both levels -/
+theorem fillSerial_sound : ∀ (rs : List Round) (b b' : NB) (n : Nat), OK b → fillSerial b n rs = some b' →
+    (∃ extra, b'.outer.out = b.outer.out ++ extra ∧ ∀ p ∈ b'.inner.buf, p ∈ b.inner.buf ∨ p ∈ extra)
+  | [], b, b', n, _, hs => by
+    simp only [fillSerial] at hs
+    split at hs
+    · simp only [Option.some.injEq] at hs; subst hs; exact ⟨[], by simp, fun p hp => Or.inl hp⟩
+    · exact absurd hs (by simp)
+  | r :: rs, b, b', n, h, hs => by
+    simp only [fillSerial] at hs
+    split at hs
+    · exact absurd hs (by simp)
+    split at hs
+    · exact absurd hs (by simp)
+    rename_i b1 hr
+    obtain ⟨k1, _, k3, _, _⟩ := innerRound_spec b b1 r h hr
+    obtain ⟨props, hp1, hp2⟩ := innerRound_out b b1 r hr h
+    obtain ⟨extra, he1, he2⟩ := fillSerial_sound rs b1 b' n k1 hs
+    refine ⟨props ++ extra, by rw [he1, hp1, List.append_assoc], ?_⟩
+    intro p hp
+    rcases he2 p hp with h1 | h1
+    · rw [k3] at h1
+      rcases List.mem_append.mp h1 with h2 | h2
+      · exact Or.inl h2
+      · exact Or.inr (List.mem_append_left _ (hp2 p h2))
+    · exact Or.inr (List.mem_append_right _ h1)
+
 theorem worker_spec (b w : NB) (n : Nat) (rs : List Round) (hs : worker b n rs = some w) :
     OK w ∧ n ≤ w.inner.buf.length ∧ w.inner.out = [] ∧ w.inner.buf = (rs.map (·.accepted)).flatten := by
   obtain ⟨h1, h2, h3, h4, _⟩ := fillSerial_spec rs (reset b) w n ok_init hs
